@@ -291,6 +291,15 @@ func (t *c07Tr) cond(e ast.Expr) (string, error) {
 				}
 				return s
 			}
+			if t.kind == "helper" || t.kind == "check2" {
+				// h == nil for a *genericHelper
+				if h, ok := t.ghExpr(x.X); ok && c07IsNil(x.Y) && h != "None" {
+					return wrap("(gh_is_nil " + h + ")"), nil
+				}
+				if h, ok := t.ghExpr(x.Y); ok && c07IsNil(x.X) && h != "None" {
+					return wrap("(gh_is_nil " + h + ")"), nil
+				}
+			}
 			if a, ok := t.tyExpr(x.X); ok {
 				if c07IsNil(x.Y) {
 					return wrap("(rt_is_nil " + a + ")"), nil
@@ -330,6 +339,13 @@ func (t *c07Tr) cond(e ast.Expr) (string, error) {
 		}
 	}
 	return "", t.errf("condition %s is outside the translated fragment", types.ExprString(e))
+}
+
+
+// cond with the left operand of a conjunction looked up as a whole first: in a && b && c (parsed (a && b) && c) the
+// pair a && b may be an entry of the bools table
+func (t *c07Tr) condLeftAssoc(e ast.Expr) (string, error) {
+	return t.cond(e)
 }
 
 // the value of the piece when control reaches its end / a continue
@@ -554,30 +570,91 @@ func (t *c07Tr) stmts(l []ast.Stmt, ind string, depth int) (string, error) {
 						r, err := rest(1)
 						return "if (x_any_pending xs) then false\n" + ind + "else " + r, err
 					}
-					// for k, node := range g.nodes { if C(node) { return nil, <error> } }
-					if c07sq(x.X) == "g.nodes" && x.Value != nil {
-						v := c07sq(x.Value)
-						saved := map[string]string{}
-						for _, m := range []string{"inputType", "outputType"} {
-							k := v + "." + m + "()"
-							saved[k] = t.tyNames[k]
-							t.tyNames[k] = "(n_" + map[string]string{"inputType": "in", "outputType": "out"}[m] + " node)"
-						}
-						c, err := t.cond(is.Cond)
-						for k, o := range saved {
-							if o == "" {
-								delete(t.tyNames, k)
-							} else {
-								t.tyNames[k] = o
-							}
-						}
-						if err != nil {
-							return "", err
-						}
-						r, err := rest(1)
-						return "if (x_any_node (fun node => " + c + ") xs) then false\n" + ind + "else " + r, err
+				}
+			}
+		}
+		if t.kind == "check2" && c07sq(x.X) == "g.nodes" && x.Value != nil && len(x.Body.List) >= 1 {
+			// for key, node := range g.nodes { if C1(key, node) { return nil, <error> }; if C2(key, node) { return nil, <error> } … }
+			var conds []ast.Expr
+			for _, bs := range x.Body.List {
+				is, ok := bs.(*ast.IfStmt)
+				if !ok || is.Init != nil || is.Else != nil || len(is.Body.List) != 1 {
+					conds = nil
+					break
+				}
+				r, ok := is.Body.List[0].(*ast.ReturnStmt)
+				if !ok || len(r.Results) != 2 || !c07IsNil(r.Results[0]) || !t.isErrorValue(r.Results[1]) {
+					conds = nil
+					break
+				}
+				conds = append(conds, is.Cond)
+			}
+			if len(conds) > 0 {
+				v := c07sq(x.Value)
+				kv := ""
+				if x.Key != nil && c07sq(x.Key) != "_" {
+					kv = c07sq(x.Key)
+				}
+				savedTy, savedB, savedGh := map[string]string{}, map[string]string{}, map[string]string{}
+				for _, m := range []string{"inputType", "outputType"} {
+					k := v + "." + m + "()"
+					savedTy[k] = t.tyNames[k]
+					t.tyNames[k] = "(n_" + map[string]string{"inputType": "in", "outputType": "out"}[m] + " node)"
+				}
+				// a node of the model is a lambda (or sub graph, which keeps the lambda contract) or a passthrough
+				// node; only the latter is read through node.cr here
+				for k, val := range map[string]string{v + ".cr!=nil&&" + v + ".cr.isPassthrough": "(n_pass node)"} {
+					savedB[k] = t.bools[k]
+					t.bools[k] = val
+				}
+				usesKey := false
+				if kv != "" {
+					k := v + ".cr.genericHelper"
+					savedGh[k] = t.ghNames[k]
+					t.ghNames[k] = "(x_node_cr_gh xs key)"
+				}
+				var cs []string
+				var cerr error
+				for _, ce := range conds {
+					c, err := t.condLeftAssoc(ce)
+					if err != nil {
+						cerr = err
+						break
+					}
+					if strings.Contains(c, "x_node_cr_gh") {
+						usesKey = true
+					}
+					cs = append(cs, c)
+				}
+				for k, o := range savedTy {
+					if o == "" {
+						delete(t.tyNames, k)
+					} else {
+						t.tyNames[k] = o
 					}
 				}
+				for k, o := range savedB {
+					if o == "" {
+						delete(t.bools, k)
+					} else {
+						t.bools[k] = o
+					}
+				}
+				for k, o := range savedGh {
+					if o == "" {
+						delete(t.ghNames, k)
+					} else {
+						t.ghNames[k] = o
+					}
+				}
+				if cerr != nil {
+					return "", cerr
+				}
+				r, err := rest(1)
+				if len(cs) == 1 && !usesKey {
+					return "if (x_any_node (fun node => " + cs[0] + ") xs) then false\n" + ind + "else " + r, err
+				}
+				return "if (x_any_node_k (fun key node => (" + strings.Join(cs, " || ") + ")) xs) then false\n" + ind + "else " + r, err
 			}
 		}
 	case *ast.IncDecStmt:
@@ -1163,11 +1240,11 @@ func c07ExtractNodeType(repo string) (string, string, error) {
 	}
 	var b strings.Builder
 	b.WriteString(c07Header("NodeTypeCode.v", "c07_nodetype", "compose/graph_node.go (methods inputType, outputType, getGenericHelper of graphNode)"))
-	b.WriteString(c07Imports + "\nDefinition tie_available : bool := true.\n\n")
+	b.WriteString(c07Imports + "From Eino Require Import Model.TypeBuilderGenLib2.\n\nDefinition tie_available : bool := true.\n\n")
 	for _, x := range []struct{ name, kind, def string }{
 		{"inputType", "ty", "Definition node_input_type (m : ty) (has_info in_key out_key is_graph has_cr : bool) (g_in g_out cr_in cr_out : option ty) (g_gh cr_gh : helper) : option ty"},
 		{"outputType", "ty", "Definition node_output_type (m : ty) (has_info in_key out_key is_graph has_cr : bool) (g_in g_out cr_in cr_out : option ty) (g_gh cr_gh : helper) : option ty"},
-		{"getGenericHelper", "helper", "Definition node_generic_helper (m : ty) (has_info in_key out_key is_graph has_cr : bool) (g_in g_out cr_in cr_out : option ty) (g_gh cr_gh : helper) : helper"},
+		{"getGenericHelper", "helper", "Definition node_generic_helper (m : ty) (has_info in_key out_key is_graph has_cr : bool) (g_in g_out cr_in cr_out : option ty) (g_gh cr_gh gh_empty : helper) : helper"},
 	} {
 		fn := c07MethodOf(f, "graphNode", x.name)
 		if fn == nil || fn.Body == nil || len(fn.Recv.List[0].Names) != 1 || fn.Recv.List[0].Names[0].Name != "gn" || len(fn.Type.Params.List) != 0 {
@@ -1188,6 +1265,12 @@ func c07ExtractNodeType(repo string) (string, string, error) {
 		t.tyNames["gn.cr.outputType"] = "cr_out"
 		t.ghNames["gn.g.getGenericHelper()"] = "g_gh"
 		t.ghNames["gn.cr.genericHelper"] = "cr_gh"
+		t.ghNames["&genericHelper{}"] = "gh_empty" // the helper without any instantiated field: a parameter (nothing is assumed of it)
+		for _, c := range []string{"==0"} {
+			t.bools["len(gn.nodeInfo.inputKey)"+c] = "(negb in_key)"
+			t.bools["len(gn.nodeInfo.outputKey)"+c] = "(negb out_key)"
+		}
+		t.bools["gn.nodeInfo==nil"] = "(negb has_info)"
 		body, err := t.stmts(fn.Body.List, "  ", 0)
 		if err != nil {
 			return "", "", err
@@ -1216,7 +1299,7 @@ func c07ExtractCompile(repo string) (string, string, error) {
 		if is, ok := s.(*ast.IfStmt); ok && is.Init == nil && c07sq(is.Cond) == "len(g.startNodes)==0" && from < 0 {
 			from = i
 		}
-		if rs, ok := s.(*ast.RangeStmt); ok && from >= 0 && to < 0 && c07sq(rs.X) == "g.nodes" && len(rs.Body.List) == 1 {
+		if rs, ok := s.(*ast.RangeStmt); ok && from >= 0 && to < 0 && c07sq(rs.X) == "g.nodes" && len(rs.Body.List) >= 1 {
 			if is, ok := rs.Body.List[0].(*ast.IfStmt); ok && strings.Contains(c07sq(is.Cond), "Type()==nil") {
 				to = i
 			}
@@ -1287,7 +1370,7 @@ func c07ExtractCompile(repo string) (string, string, error) {
 	}
 	var b strings.Builder
 	b.WriteString(c07Header("CompileCode.v", "c07_compile", "compose/graph.go (compile: the start / end node, pending-entry and untyped-node checks;\n   the converters put behind the state handlers of a passthrough node)"))
-	b.WriteString(c07Imports + "From Eino Require Import Gen.ValidateCode.\n\nDefinition tie_available : bool := true.\n\n")
+	b.WriteString(c07Imports + "From Eino Require Import Model.TypeBuilderGenLib2 Gen.ValidateCode.\n\nDefinition tie_available : bool := true.\n\n")
 	b.WriteString("Definition compile_checks (xs : xstate) : bool :=\n  " + checks + ".\n\n")
 	b.WriteString("Definition handler_convs (xs : xstate) (name : key) : option ty * option ty :=\n  let pre_conv := @None ty in\n  let post_conv := @None ty in\n  " + convs + ".\n")
 	return "CompileCode.v", b.String(), nil
@@ -1313,7 +1396,8 @@ func c07ExtractAddNode(repo string) (string, string, error) {
 	for i, s := range l {
 		if is, ok := s.(*ast.IfStmt); ok && is.Init == nil {
 			switch c07sq(is.Cond) {
-			case "options.needState":
+			case "options.needState", "options.needState&&g.stateGenerator==nil":
+				// the option check, nested (if needState { if no generator … }) or as one condition
 				if from < 0 {
 					from = i
 				}
@@ -1339,6 +1423,7 @@ func c07ExtractAddNode(repo string) (string, string, error) {
 	t.tyNames["options.processor.statePostHandler.inputType"] = "(h_ty_of post)"
 	t.tyNames["reflect.TypeOf((*any)(nil)).Elem()"] = "(Some TAny)"
 	t.skipIf[`options.nodeOptions.nodeKey!=""`] = true // chains only
+	t.skipIf[`options.nodeOptions.nodeKey!=""&&!isChain(g.cmp)`] = true
 	code, err := t.stmts(l[from:to+1], "  ", 0)
 	if err != nil {
 		return "", "", err
